@@ -261,6 +261,11 @@ def gen_pairs(seed, count, depth):
         (('vec', u8), ('carr', u8, 4), 1), (('arr', i32, 10), ('carr', i32, 10), 1), (('vec', ('str', 'char')), ('tup', [('str', 'char'), ('str', 'char')]), 1),
         (('map', i32, ('str', 'char')), ('umap', i32, ('str', 'char')), 1), (('pair', i32, ('str', 'char')), ('tup', [i32, ('str', 'char')]), 1),
         (('vec', i32), ('tup', [i32, i32]), -1), (('arr', i32, 3), ('arr', i32, 4), -1),
+        # arrays nested in arrays: the inner extent is part of the wire format
+        (('carr', ('carr', i32, 3), 2), ('arr', ('carr', i32, 3), 2), 1),
+        (('carr', ('carr', i32, 3), 2), ('carr', ('carr', i32, 4), 2), -1),
+        (('arr', ('carr', P('float'), 3), 2), ('arr', ('carr', P('float'), 4), 2), -1),
+        (('vec', ('arr', ('str', 'char'), 2)), ('vec', ('arr', ('str', 'char'), 3)), -1),
     ]
     for a, b, exp in fixed:
         pairs.append((a, b, exp, ['fixed']))
